@@ -3,13 +3,18 @@
    fast); no proofs here. *)
 Require Import Bytes AMap Tags Event Grammar.
 
-(* line terminator: the maximal CR/LF suffix *)
+(* line terminator: the maximal CR/LF suffix (body, eol); an empty body means that
+   everything seen so far is CR/LF *)
 Fixpoint split_eol (l : str) : str * str :=
-  if forallb is_crlf l then ([], l)
-  else match l with
-       | [] => ([], [])
-       | b :: r => let '(body, eol) := split_eol r in (b :: body, eol)
-       end.
+  match l with
+  | [] => ([], [])
+  | b :: r =>
+    let '(body, eol) := split_eol r in
+    match body with
+    | [] => if is_crlf b then ([], b :: eol) else ([b], eol)
+    | _ => (b :: body, eol)
+    end
+  end.
 
 (* first occurrence of a byte: (before, after) *)
 Fixpoint lcut (c : N) (s : str) : option (str * str) :=
